@@ -58,7 +58,34 @@ def run_impl(case):
         try:
             s = _mk(case, r, case["e0"])
             ln = len(s)
-            ys = [[int(x) for x in s] for _ in range(case["k"] + 1)]
+            run = case.get("run", "seq")
+            if run == "seq":
+                ys = [[int(x) for x in s] for _ in range(case["k"] + 1)]
+            elif run == "overlap":
+                # several iterators of one sampler alive at once, consumed interleaved: iterator j must
+                # still deliver epoch e0+j (the order is a function of (seed, epoch), not of call history)
+                its = [iter(s) for _ in range(case["k"] + 1)]
+                ys = [[] for _ in its]
+                live = list(range(len(its)))
+                step = 0
+                while live:
+                    j = live[step % len(live)]
+                    try:
+                        ys[j].append(int(next(its[j])))
+                        step += 1
+                    except StopIteration:
+                        live.remove(j)
+            else:  # "probe": other epochs are queried (as a length computation would) while one is consumed
+                ys = []
+                for _ in range(case["k"] + 1):
+                    it = iter(s)
+                    y = []
+                    for i, x in enumerate(it):
+                        y.append(int(x))
+                        if i % 2 == 0:
+                            list(s.get_samples_for_epoch(case["e0"] + 7 + i))
+                            len(s)
+                    ys.append(y)
             s2 = _mk(case, r, case["e0"] + case["k"])
             direct = [int(x) for x in s2]
             out.append([int(ln), ys, direct])
@@ -131,13 +158,42 @@ def gen_cases(chk):
             cases.append(dict(n=n, W=W, mode=mode, kind=kind, e0=(n + W) % 3, k=(n + W) % 2 + (1 if n % 5 == 0 else 0),
                               seed=n * 5 + W, stream="exhaustive-slice"))
     rng = chk.rng
+    # histories: overlapping iterators / probing other epochs mid-iteration (deterministic slice)
+    for n, W, mode in itertools.product([0, 1, 5, 8, 9], [0, 2, 3], MODES):
+        for run in ("overlap", "probe"):
+            cases.append(dict(n=n, W=W, mode=mode, kind="random", e0=n % 3, k=1 + n % 2, seed=n * 11 + W, run=run,
+                              stream="history"))
+    # index-width boundaries: data sets just around 2^8 (and 2^9) items split over a few ranks
+    for n in ([254, 255, 256, 257, 258, 300, 511, 513] if chk.tier == "thorough" else [255, 257, 300, 513]):
+        for W in (2, 3, 4):
+            for mode in ("drop", "uneven") + (("raise",) if n % W == 0 else ()):
+                cases.append(dict(n=n, W=W, mode=mode, kind="random", e0=0, k=0, seed=n + W, stream="wide"))
     nrand = 4000 if chk.tier == "thorough" else 500
     for _ in range(nrand):
         W = rng.choice([0, 1, 2, 2, 3, 3, 4, 5, 6, 7, 9])
         n = rng.randint(0, 40)
         cases.append(dict(n=n, W=W, mode=rng.choice(MODES), kind=rng.choice(["random", "random", "sequential"]),
-                          e0=rng.randint(0, 5), k=rng.randint(0, 3), seed=rng.randint(0, 2**31 - 1), stream="random"))
+                          e0=rng.randint(0, 5), k=rng.randint(0, 3), seed=rng.randint(0, 2**31 - 1),
+                          run=rng.choice(["seq", "seq", "overlap", "probe"]), stream="random"))
     return cases
+
+
+def big_relation(chk):
+    """Implementation-only search at sizes too large for Coq literals: per-rank lists for N around 2^16 must be
+    pairwise disjoint, cover every index below the effective total, and have the reported lengths."""
+    for n, W, mode in [(65535, 2, "uneven"), (65537, 2, "uneven"), (65537, 3, "drop"), (70001, 4, "uneven"), (131073, 3, "uneven")]:
+        case = dict(n=n, W=W, mode=mode, kind="random", e0=0, k=0, seed=n % 97)
+        out = run_impl(case)
+        eff = n - n % W if mode == "drop" else n
+        allv = [x for o in out for x in o[1][0]]
+        ok = (all(o is not None and not isinstance(o, str) for o in out) and len(allv) == eff and len(set(allv)) == eff
+              and all(0 <= x < n for x in allv) and all(o[0] == len(o[1][0]) for o in out))
+        chk.count("big_relation")
+        chk.note_case(case, True, "wide-impl-only")
+        if not ok:
+            chk.report({"case": case, "what": "per-rank index lists are not a partition of the first effective_total positions "
+                        "of a permutation (lost / duplicated / out-of-range index) at a large data-set size",
+                        "impl_summary": {"lens": [o[0] if o else None for o in out], "yielded": len(allv), "distinct": len(set(allv)), "max": max(allv) if allv else None}})
 
 
 def _fails(chk, case):
@@ -155,6 +211,15 @@ def _cands(case):
         c = dict(case)
         c["kind"] = "sequential"
         yield c
+    if case.get("run", "seq") != "seq":
+        c = dict(case)
+        c["run"] = "seq"
+        yield c
+    if case["n"] > 40:
+        for n2 in (case["n"] // 2, case["n"] - 10):
+            c = dict(case)
+            c["n"] = n2
+            yield c
 
 
 def judge(chk, case, out, model_ok):
@@ -187,10 +252,12 @@ def model_show(case):
 def run(chk, cases=None):
     chk.rule = ("case = (n, world size W, mode, sampler kind, base seed, init epoch e0, extra epochs k); every rank of the "
                 "group is constructed under a patched torch.distributed, len() and k+1 successive iterations are recorded, plus "
-                "the first iteration of a sampler constructed at epoch e0+k; compared with PV.C13.Model.run evaluated by "
+                "the first iteration of a sampler constructed at epoch e0+k (run=overlap: k+1 iterators alive and consumed interleaved; run=probe: other epochs and len() queried mid-iteration; stream wide: N around 2^8/2^9, and around 2^16 judged on the implementation alone); compared with PV.C13.Model.run evaluated by "
                 "vm_compute on NumPy's permutation for (seed, epoch). non-trivial = W>=2 and n>=W (the epoch is really split)")
     chk.assumptions += ["np.random.RandomState((seed, epoch)).permutation(n) is the order oracle handed to the model",
                         "torch.distributed is simulated by patching is_available/is_initialized/get_rank/get_world_size"]
+    if cases is None:
+        big_relation(chk)
     cases = cases if cases is not None else gen_cases(chk)
     outs, terms = [], []
     for c in cases:
@@ -202,6 +269,7 @@ def run(chk, cases=None):
         chk.count("mode=" + c["mode"])
         chk.count("W=%d" % c["W"])
         chk.count("outcome=" + ("raise" if any(o is None for o in out) else "ok"))
+        chk.count("run=" + c.get("run", "seq"))
     res = coq_eval_bools(chk.workdir, IMPORTS, terms)
     bad = [i for i, ok in enumerate(res) if not ok]
     chk.extra["model_disagreements"] = len(bad)
